@@ -165,6 +165,53 @@ func judge(k kase) outcome {
 	return o
 }
 
+// explainRef re-classes the leaks of writes through an element reference (class ref): when the plain
+// write to the same slot (the mutation's sibling) leaks between the same two names in the same case,
+// the cell is simply shared (the shallow-copy cause) and the leak is class interior; the class stays
+// ref only when plain writes are separate and just the reference reaches the other name.
+func explainRef(k kase, o *outcome, jc *judgeCache) {
+	if !o.Evaluable {
+		return
+	}
+	for j, st := range k.Steps {
+		if j >= len(o.B.classes) || o.B.classes[j] != "ref" {
+			continue
+		}
+		need := o.OuterLeak
+		for _, l := range o.Leaks {
+			if l.Step == j && l.Class == "ref" {
+				need = true
+			}
+		}
+		if !need {
+			continue
+		}
+		m, _ := mutByName(st.Mut)
+		k2 := kase{Shape: k.Shape, Routes: k.Routes, Rot: k.Rot, Steps: append([]step{}, k.Steps...)}
+		k2.Steps[j].Mut = m.sibling
+		o2 := jc.get(k2)
+		if !o2.Evaluable {
+			continue
+		}
+		for i := range o.Leaks {
+			l := &o.Leaks[i]
+			if l.Step != j || l.Class != "ref" {
+				continue
+			}
+			for _, l2 := range o2.Leaks {
+				if l2.Step == j && l2.From == l.From && l2.To == l.To {
+					l.Class = "interior"
+					break
+				}
+			}
+		}
+		if o.OuterLeak && o2.OuterLeak {
+			o.B.classes = append([]string{}, o.B.classes...)
+			o.B.classes[j] = "interior"
+		}
+	}
+}
+
 // routeBetween names the copy mechanism that separates names i and j.
 func routeBetween(k kase, i, j int) string {
 	if i > j {
@@ -196,6 +243,7 @@ func (c *judgeCache) get(k kase) outcome {
 	}
 	c.runs++
 	o := judge(k)
+	explainRef(k, &o, c)
 	o.Snaps, o.B.script = nil, ""
 	c.m[s] = o
 	return o
@@ -365,7 +413,7 @@ type shardArg struct {
 	Rot    int      `json:"rot"`
 }
 
-var classReps = []string{"set-first", "append", "unset-first", "m-push", "m-sort", "nested-set"}
+var classReps = []string{"set-first", "append", "unset-first", "m-push", "m-sort", "nested-set", "ref-param", "ref-param-nested"}
 
 func stepsFor(mode string, names int) [][]step {
 	var all, reps []step
@@ -460,6 +508,7 @@ func matrixWorker(w *pool.W, arg json.RawMessage) {
 		r.N++
 		r.Runs++
 		o := judge(k)
+		explainRef(k, &o, jc)
 		if !o.Evaluable {
 			r.Uneval[strings.Join(sh.Routes, ">")+" "+o.Reason]++
 			if o.CopyDiff {
@@ -1002,6 +1051,7 @@ func replay(c *ev.Check) {
 	fmt.Println(describe(k))
 	o := judge(k)
 	jc := &judgeCache{m: map[string]outcome{}}
+	explainRef(k, &o, jc)
 	for _, f := range findings(k, o, jc) {
 		c.Fail(f.Key, f.Clause, 0, caseJSON(f.Case), f.Detail)
 	}
